@@ -387,6 +387,8 @@ def vecFor (cfg : Cfg) (r : Reporter) (kind : UseKind) (name : Bytes) (keys : Li
   | .timerAs true => histogramVec cfg.variant r name keys cfg.defaultBounds
   | .timerAs false => summaryVec cfg.variant r name keys
   | .histogram spec => histogramVec cfg.variant r name keys spec.promBounds
+  | .counterAs => counterVec r name keys
+  | .gaugeAs => gaugeVec r name keys
 
 theorem useMetric_eq (cfg : Cfg) (r : Reporter) (kind : UseKind) (name : Bytes) (tags : Tags) :
     useMetric cfg r kind name tags =
@@ -398,6 +400,8 @@ theorem useMetric_eq (cfg : Cfg) (r : Reporter) (kind : UseKind) (name : Bytes) 
   | timer => simp only [useMetric, vecFor, Spec.C17.viaRegister]; split <;> rfl
   | timerAs h => cases h <;> rfl
   | histogram spec => rfl
+  | counterAs => rfl
+  | gaugeAs => rfl
 
 /-- what is known about every cached vector, relative to the first uses made so far -/
 structure CacheOk (cfg : Cfg) (us : List Use) (r : Reporter) : Prop where
@@ -566,6 +570,12 @@ theorem vecFor_spec (cfg : Cfg) (us : List Use) (r : Reporter) (kind : UseKind) 
     · exact histogramVec_spec cfg us r name _ _ (.timerAs true) (by simp [Spec.C17.typeOf]) hu hc
   | histogram spec =>
     exact histogramVec_spec cfg us r name _ _ (.histogram spec) (by simp [Spec.C17.typeOf]) hu hc
+  | counterAs =>
+    have h := counterVec_spec cfg us r name (keysOf tags) hc
+    exact ⟨h.cache, h.series, h.errors, h.fam, h.repaired⟩
+  | gaugeAs =>
+    have h := gaugeVec_spec cfg us r name (keysOf tags) hc
+    exact ⟨h.cache, h.series, h.errors, h.fam, h.repaired⟩
 
 
 def seriesAfter (s : List (SeriesKey × Val)) (k : SeriesKey) (f : Family) : List (SeriesKey × Val) :=
